@@ -51,6 +51,27 @@ def _check_typecodes():
 _checked = False
 
 
+def _origin_of_len(n):
+    """labels of an absolute name whose wire form is exactly n octets (n >= 1)"""
+    labs = []
+    left = n - 1
+    while left > 0:
+        take = min(64, left)
+        if left - take == 1:
+            take -= 1
+        labs.append(b"o" * (take - 1))
+        left -= take
+    return [l for l in labs] + [b""]
+
+
+def _to_file(rd, origin):
+    import io
+
+    f = io.BytesIO()
+    rd.to_wire(f, None, origin)
+    return f.getvalue()
+
+
 def _names_in(obj, depth=0):
     """all dns.name.Name values held by a record (fields, tuples, helper objects such as Gateway/Relay)"""
     import dns.name
@@ -200,6 +221,35 @@ def run_grammar(case):
             rdo.to_wire()
         except dns.name.NeedAbsoluteNameOrOrigin:
             classes.append("relativized-names")
+            # a record that holds relative names, encoded under ANOTHER origin: one under which its
+            # longest name just fits in 255 octets, and one under which it is one octet too long.
+            # Every encoder either refuses (a DNSException) or emits octets the decoder accepts.
+            longest = max(W.wire_len(list(n.labels)) for n in _names_in(rdo) if not n.is_absolute())
+            for over in (0, 1):
+                olen = 255 - longest + over
+                if olen < 1 or olen == 2 or olen > 255:
+                    continue  # no name has a 2-octet wire form; an origin is itself at most 255 octets
+                big = dns.name.Name(_origin_of_len(olen))
+                for label, enc in (
+                    ("to_wire(origin=)", lambda: rdo.to_wire(origin=big)),
+                    ("to_wire(file, origin=)", lambda: _to_file(rdo, big)),
+                    ("to_digestable", lambda: rdo.to_digestable(big)),
+                    ("to_generic", lambda: rdo.to_generic(big).data),
+                ):
+                    try:
+                        wb = enc()
+                    except dns.exception.DNSException:
+                        if not over:
+                            raise Violation("origin", f"{tname}: {label} refuses an origin of {olen} octets under which the longest name ({longest} octets relative) is exactly 255 octets", "origin-fit-refused:" + tname)
+                        classes.append("origin-too-long-refused")
+                        continue
+                    try:
+                        dns.rdata.from_wire(rdclass, rdtype, wb, 0, len(wb))
+                    except dns.exception.DNSException as e:
+                        raise Violation("roundtrip", f"{tname}: {label} with an origin of {olen} octets ({'one too long' if over else 'exact fit'}) produced {len(wb)} octets that from_wire rejects: {type(e).__name__}", "reject-own-origin:" + tname)
+                    if over:
+                        raise Violation("roundtrip", f"{tname}: {label} encoded a name of more than 255 octets and from_wire accepted it", "origin-overlong-accepted:" + tname)
+                    classes.append("origin-exact-fit")
         # every embedded name at or below the origin is held relative, every other one absolute
         # (the algorithm names of TSIG/TKEY are never relativized: D21)
         if "names" in case and tname not in ("TSIG", "TKEY"):
@@ -343,7 +393,7 @@ def parts(tier):
     per_type = {"quick": 40, "thorough": 400}[tier]
     req = {("acc:" + t): per_type for t in R.ALL_TYPES}
     req.update({("relativity-checked:" + t): 5 for t in R.NAME_TYPES if t not in ("TSIG", "TKEY", "CH_A") and t in R.GRAMMARS})
-    req.update({"with-origin": 100, "relativized-names": 20, "relativity-checked": 200, "other-class-first": 1000, "normalizing": 20})
+    req.update({"with-origin": 100, "relativized-names": 20, "origin-exact-fit": 3000, "origin-too-long-refused": 2000, "relativity-checked": 200, "other-class-first": 1000, "normalizing": 20})
     n_types = len(R.ALL_TYPES)
     return [
         Part("grammar", run_grammar, strategy=grammar_cases(R.ALL_TYPES),
